@@ -78,6 +78,12 @@ ParamCond == {Cond(Rel(r, A, N("2")), X, Y) : r \in RelOps} \cup {Cond(Rel(r, T,
              \cup {Cond(And(<<Rel("Gt", A, N("0")), Rel("Lt", T, N("3"))>>), X, Y), Cond(Or(<<Rel("Le", A, N("0")), Rel("Ge", Tm, N("1.5"))>>), N("2"), Y),
                    Bn("add", Cond(Rel("Gt", A, N("1")), N("1"), N("0")), X), Bn("mul", Cond(Rel("Lt", T, N("1")), A, N("2")), Y),
                    Cond(Not(Rel("Eq", A, N("3"))), X, Neg(X))}
+\* window conditions (two strict bounds on one quantity) and sign-sensitive uses of time
+Window == {Cond(Or(<<Rel("Lt", v, lo), Rel("Gt", v, hi)>>), X, N("0.5")) : v \in {X, Y, T}, lo \in {Neg(N("1")), N("0")}, hi \in {N("1"), N("1.5")}}
+          \cup {Cond(And(<<Rel("Gt", v, lo), Rel("Lt", v, hi)>>), N("2"), Y) : v \in {X, T}, lo \in {Neg(N("1")), N("0")}, hi \in {N("1"), A}}
+          \cup {Cond(Rel(r, T, N("0")), X, Y) : r \in RelOps} \cup {Cond(Rel(r, Tm, Neg(N("1"))), N("2"), Y) : r \in RelOps}
+          \cup {Fn("abs", T), Fn("sqrt", Bn("mul", T, T)), Fn("sqrt", Bn("pow", Tm, N("2"))), Bn("mul", Fn("abs", Tm), X), Fn("floor", T),
+                Mod(T, N("2")), Fn("abs", Bn("sub", T, N("1"))), Bn("pow", T, N("3")), Fn("exp", T), Cond(Rel("Lt", Fn("abs", T), N("1")), X, Y)}
 ModSign == {Mod(nn, dd) : nn \in {Fn("abs", X), Fn("Abs", Y), Bn("mul", X, X), Fn("exp", X), Bn("pow", Y, N("2")), Fn("sqrt", Fn("abs", A)), N("3"), N("0.5")},
                           dd \in {X, Y, A, Neg(N("3")), N("2"), Neg(N("0.5"))}}
            \cup {Mod(nn, dd) : nn \in {X, Y, Neg(X), Bn("sub", X, A)}, dd \in {Fn("abs", A), Neg(Fn("abs", Y)), N("3"), Neg(N("2"))}}
@@ -100,7 +106,7 @@ Compose(a) ==
     [] Lvl = 2 -> Un({a})
     [] Lvl = 3 -> Bin(Leaves, {a}) \cup Bin({a}, Leaves)
     [] Lvl = 4 -> IF a = Marker THEN {} ELSE Bool3(a) \cup Cond3(a)
-    [] Lvl = 8 -> IF a = Marker THEN CC \cup LitS \cup ParamCond \cup ModSign ELSE NestC(a)
+    [] Lvl = 8 -> IF a = Marker THEN CC \cup LitS \cup ParamCond \cup ModSign \cup Window ELSE NestC(a)
     [] Lvl = 5 -> Chain3(a) \cup Signs(a)
     [] Lvl = 6 -> Bin5({a}, B1)
     [] Lvl = 7 -> Bin5({a}, U1 \cup Leaves) \cup Un(Un({a}))
@@ -109,7 +115,8 @@ Compose(a) ==
 Envs == << [x |-> Q(3,2),  y |-> Q(-1,4), a |-> Q(3,1),  t |-> Q(2,1)],
            [x |-> Q(-1,2), y |-> Q(2,1),  a |-> Q(1,4),  t |-> Q(0,1)],
            [x |-> Q(2,1),  y |-> Q(1,2),  a |-> Q(-2,1), t |-> Q(1,2)],
-           [x |-> Q(0,1),  y |-> Q(-3,1), a |-> Q(1,1),  t |-> Q(5,1)] >>
+           [x |-> Q(0,1),  y |-> Q(-3,1), a |-> Q(1,1),  t |-> Q(5,1)],
+           [x |-> Q(1,2),  y |-> Q(3,2),  a |-> Q(-1,2), t |-> Q(-3,1)] >>        \* negative time
 
 VARIABLES pc, a, e
 vars == <<pc, a, e>>
